@@ -10,6 +10,7 @@ import (
 	metav1 "k8s.io/apimachinery/pkg/apis/meta/v1"
 	"k8s.io/apimachinery/pkg/types"
 	"k8s.io/component-helpers/scheduling/corev1/nodeaffinity"
+	"sigs.k8s.io/controller-runtime/pkg/client"
 
 	"verif/gen"
 	"verif/oracle"
@@ -113,6 +114,51 @@ func setupVolumes(rng *rand.Rand, s *common.Scenario) {
 		}
 	}
 	_ = e.SyncState()
+}
+
+// sharedVolumeHistory prepares (on one initialized node with room) the history "two running pods mount the same claim, one of
+// them goes away": CSINode limit 3, pods A (shared + own) and B (shared + own). It returns B and a pending pod with two
+// new volumes; after B is gone the node holds 2 distinct volumes and cannot take 2 more. The caller deletes B and delivers
+// only that pod event (no Node event) right before scheduling.
+func sharedVolumeHistory(rng *rand.Rand, s *common.Scenario) (gone *corev1.Pod, filler *corev1.Pod) {
+	e := s.Env
+	nodes := &corev1.NodeList{}
+	_ = e.API.Raw.List(context.Background(), nodes)
+	for i := range nodes.Items {
+		n := &nodes.Items[i]
+		if n.Labels["karpenter.sh/initialized"] != "true" || n.DeletionTimestamp != nil || len(n.Spec.Taints) > 0 {
+			continue
+		}
+		pods := &corev1.PodList{}
+		_ = e.API.Raw.List(context.Background(), pods, client.MatchingFields{"spec.nodeName": n.Name})
+		hasVol := false
+		for _, p := range pods.Items {
+			hasVol = hasVol || len(p.Spec.Volumes) > 0
+		}
+		if hasVol {
+			continue
+		}
+		cnt := int32(3)
+		e.Apply(&storagev1.CSINode{ObjectMeta: metav1.ObjectMeta{Name: n.Name}, Spec: storagev1.CSINodeSpec{Drivers: []storagev1.CSINodeDriver{{Name: csiDriver, NodeID: n.Name, Allocatable: &storagev1.VolumeNodeResources{Count: &cnt}}}}})
+		var zones []string
+		if z := n.Labels[corev1.LabelTopologyZone]; z != "" {
+			zones = []string{z}
+		}
+		shared := newBoundClaim(e, rng, zones)
+		a := gen.Pod(s.NextPodName("va"), 10, 8, gen.Bound(n.Name, e.Clock.Now()), gen.WithToleration(corev1.Toleration{Operator: corev1.TolerationOpExists}))
+		withClaim(a, shared)
+		withClaim(a, newBoundClaim(e, rng, zones))
+		b := gen.Pod(s.NextPodName("vb"), 10, 8, gen.Bound(n.Name, e.Clock.Now()), gen.WithToleration(corev1.Toleration{Operator: corev1.TolerationOpExists}))
+		withClaim(b, shared)
+		withClaim(b, newBoundClaim(e, rng, zones))
+		e.Apply(a, b)
+		f := gen.Pod(s.NextPodName("vf"), 10, 8, gen.WithToleration(corev1.Toleration{Operator: corev1.TolerationOpExists}))
+		withClaim(f, newUnboundClaim(e, "sc-wffc"))
+		withClaim(f, newUnboundClaim(e, "sc-wffc"))
+		e.Apply(f)
+		return b, f
+	}
+	return nil, nil
 }
 
 // attachVolumes gives some pods of the pending batch volumes: bound PVs in PRNG zones (1-2 OR-ed terms), unbound
